@@ -1120,34 +1120,62 @@ class PendingClassDef(_PendingCompoundStmt[ClassDef]):
 
         class_bases = [expr_transf(self.nsp, _expr) for _expr in self.node.bases]
 
-        metaclass_expr = None
-        class_keywords = []
+        # the keywords of the class statement (metaclass=... included), in source order
+        class_keyword_keys: list[expr | None] = []
+        class_keyword_values: list[expr] = []
         for _keyword in self.node.keywords:
-            if _keyword.arg == "metaclass":
-                # filter the metaclass keyword
-                metaclass_expr = expr_transf(self.nsp, _keyword.value)
-                continue
-            class_keywords.append(
-                keyword(
-                    arg=_keyword.arg,
-                    value=expr_transf(self.nsp, _keyword.value),
-                )
-            )
+            if _keyword.arg is None:  # **mapping
+                class_keyword_keys.append(None)
+            else:
+                class_keyword_keys.append(Constant(value=_keyword.arg))
+            class_keyword_values.append(expr_transf(self.nsp, _keyword.value))
 
-        if metaclass_expr is None:
-            metaclass_expr = Name(id="type", ctx=Load())
-
+        # The class is created the way the class statement does it
+        # (types.new_class: __mro_entries__ of the bases, the metaclass of the bases
+        # or of the keywords, __prepare__), with an empty body: the members are set later.
+        # It is kept in a tmp var, the name of the class is bound at the very end.
+        class_name = Name(id=ol_name(OL_CLASS))
         return_list.append(
-            self.nsp.get_assign(
-                self.node.name,
-                Call(
-                    func=metaclass_expr,
+            NamedExpr(
+                target=class_name,
+                value=Call(
+                    func=Attribute(
+                        value=Call(
+                            func=Name(id="__import__", ctx=Load()),
+                            args=[Constant(value="types")],
+                            keywords=[],
+                        ),
+                        attr="new_class",
+                        ctx=Load(),
+                    ),
                     args=[
                         Constant(value=self.node.name),
                         Tuple(elts=class_bases, ctx=Load()),
-                        Dict(keys=[], values=[]),
+                        Dict(keys=class_keyword_keys, values=class_keyword_values),
+                        # "__module__ = __name__" is the first thing a class body does
+                        Lambda(
+                            args=arguments(
+                                posonlyargs=[],
+                                args=[arg(arg=OL_UNUSED.format(0))],
+                                kwonlyargs=[],
+                                kw_defaults=[],
+                                defaults=[],
+                            ),
+                            body=Call(
+                                func=Attribute(
+                                    value=Name(id=OL_UNUSED.format(0), ctx=Load()),
+                                    attr="__setitem__",
+                                    ctx=Load(),
+                                ),
+                                args=[
+                                    Constant(value="__module__"),
+                                    Name(id="__name__", ctx=Load()),
+                                ],
+                                keywords=[],
+                            ),
+                        ),
                     ],
-                    keywords=class_keywords,
+                    keywords=[],
                 ),
             )
         )
@@ -1156,7 +1184,7 @@ class PendingClassDef(_PendingCompoundStmt[ClassDef]):
         class_body.append(
             NamedExpr(  # one step of injecting the __class__ cell
                 target=Name(id="__class__", ctx=Store()),
-                value=self.nsp.get_load_name(self.node.name),
+                value=class_name,
             )
         )
         class_body.append(
@@ -1197,7 +1225,7 @@ class PendingClassDef(_PendingCompoundStmt[ClassDef]):
             elt=Call(
                 func=Name(id="setattr", ctx=Load()),
                 args=[
-                    self.nsp.get_load_name(self.node.name),
+                    class_name,
                     Name(id=key_name, ctx=Load()),
                     Name(id=value_name, ctx=Load()),
                 ],
@@ -1232,11 +1260,11 @@ class PendingClassDef(_PendingCompoundStmt[ClassDef]):
         )
         return_list.append(load_class)
 
-        if decorator_names:
-            decorated: expr = self.nsp.get_load_name(self.node.name)
-            for decorator_name in reversed(decorator_names):
-                decorated = Call(func=decorator_name, args=[decorated], keywords=[])
-            return_list.append(self.nsp.get_assign(self.node.name, decorated))
+        # the name is bound last, to what the decorators return
+        decorated: expr = class_name
+        for decorator_name in reversed(decorator_names):
+            decorated = Call(func=decorator_name, args=[decorated], keywords=[])
+        return_list.append(self.nsp.get_assign(self.node.name, decorated))
 
         return return_list
 
